@@ -153,6 +153,47 @@ def gen_history(rng, ps, length, reopen=False):
     return ops
 
 
+# page count right after the root split that takes an ascending fill from 3 to 4 levels (a node splits when it holds
+# maxKeys entries; the left half keeps maxKeys/2): that Set splits a leaf, an internal node and the root (4 new pages)
+ROOT_SPLIT_3_TO_4 = {80: 15, 96: 19, 128: 32, 256: 124}
+
+
+def realloc_case(rng, cid, ps, mode, reopen=False):
+    """Exercises the places where the code re-reads its node slices because the buffer may have moved.  The white-box
+    poke 'tight' makes the buffer exactly full, so the next page taken by bumping nextPage re-allocates (calloc) or
+    re-maps (mmap) it.  Style 'tfill': poke before every Set of an ascending fill and of random inserts.  Style
+    'rootsplit': ascending fill to just before the Set that grows the tree from 3 to 4 levels, then exactly two
+    leaves on the left are emptied and freed by DeleteBelow, so that in the critical Set the leaf split and the
+    internal split take the two recycled pages and the root split is the first to bump nextPage (and moves the
+    buffer while Tree.Set holds the root)."""
+    mk = max_keys(ps)
+    h = mk // 2
+    v = rng.randrange(2, 50)
+    big = 1 << 40
+    ops = []
+    if ps in ROOT_SPLIT_3_TO_4 and rng.random() < 0.6:
+        ops.append(["fill", 1, 1, v, ROOT_SPLIT_3_TO_4[ps] - 4])
+        for j in range(h - 1):
+            ops.append(["set", big + j, v])
+        nfree = rng.choice([2, 2, 2, 1, 3])
+        for f in range(nfree):
+            for k in range(f * h * h + 1, f * h * h + h + 1):
+                ops.append(["set", k, 1])
+        ops += [["stats"], ["delbelow", 2], ["stats"], ["tight"], ["set", big + h - 1, v], ["stats"]]
+        for k in [1, h + 1, h * h + 1, 3 * h * h + 1, big, big + h - 1, big + h - 2, KMAX]:
+            ops.append(["get", k])
+    else:
+        ops += [["tfill", 1, rng.choice([1, 1, 3]), v, rng.choice([8, 20, 70, 300])], ["stats"], ["datalen"]]
+        for k in [1, 2, 3, 100, 1000, KMAX]:
+            ops.append(["get", k])
+    if reopen:
+        ops += [["stats"], ["reopen"], ["stats"], ["get", 1], ["get", big + 1]]
+    for j in range(rng.randrange(5, 200)):
+        ops += [["tight"], ["set", rng.choice([big - 1 - j, rng.getrandbits(20) + 1]), v + 1]]
+    ops += [["stats"], ["iter"]]
+    return Case(cid, "tree", [ps, mode], ops, tags=["realloc"])
+
+
 def tree_oracle(case, il):
     """reference: a Python dict.  Only what the property text promises: Get, DeleteBelow = filter, IterateKV = the live
     pairs exactly once (in key order, as the tree is ordered), Reset = empty; stats equal across a reopen; recycled
@@ -170,7 +211,7 @@ def tree_oracle(case, il):
             break
         if o == "set":
             d[int(fs[1])] = int(fs[2])
-        elif o == "fill":
+        elif o in ("fill", "tfill"):
             k, step, v = int(fs[1]), int(fs[2]), int(fs[3])
             for j in range(int(l)):
                 d[(k + j * step) & M64] = v
@@ -223,7 +264,7 @@ def tree_oracle(case, il):
             before_reopen = prev_stats
             if l != "ok":
                 fails.append("op %d reopen -> %s" % (i, l))
-        if o not in ("set", "fill", "get", "stats", "datalen"):
+        if o not in ("set", "fill", "tfill", "tight", "get", "stats", "datalen"):
             only_sets_since = False
         if len(fails) >= 5:
             break
@@ -260,7 +301,7 @@ def tree_features(case, il):
 
 def tree_stats(cases, impl):
     st = {"cases": 0, "ops": 0, "set": 0, "get": 0, "delbelow": 0, "iter": 0, "iterset": 0, "reset": 0, "reopen": 0,
-          "fill": 0, "split": 0, "freed_pages": 0, "recycled_pages": 0, "reopen_with_free_pages": 0, "max_pages": 0,
+          "fill": 0, "tfill": 0, "tight": 0, "split": 0, "freed_pages": 0, "recycled_pages": 0, "reopen_with_free_pages": 0, "max_pages": 0,
           "page_sizes": {}}
     for c in cases:
         if c.comp != "tree":
@@ -279,6 +320,15 @@ def tree_stats(cases, impl):
         st["reopen_with_free_pages"] += f["reopen_after_free"]
         st["max_pages"] = max(st["max_pages"], f["maxpages"])
     return st
+
+
+def died(case, il):
+    """the harness process did not survive the case (z.assert is log.Fatalf; a stale node slice into an unmapped
+    buffer is a SIGSEGV): its output is lost from this case on"""
+    if len(il) < len(case.ops):
+        return ["the implementation did not survive this case (failed z.assert = log.Fatal, or a crash): %d result "
+                "lines for %d operations" % (len(il), len(case.ops))]
+    return []
 
 
 def canon_line(line):
@@ -303,6 +353,8 @@ class C10(Prop):
     def gen(self, rng, n, ctx):
         cases = []
         thorough = ctx.tier == "thorough"
+        for j in range(60 if thorough else 12):
+            cases.append(realloc_case(rng, "ra%d" % j, rng.choice([80, 80, 96, 128, 256, 1024]), "mem"))
         for j in range(n):
             ps = rng.choice([80, 80, 80, 96, 96, 128, 128, 256, 1024, 4096])
             if thorough:
@@ -319,9 +371,7 @@ class C10(Prop):
         return canon_line(line)
 
     def oracle(self, case, il):
-        if len(il) < len(case.ops):
-            return ["implementation printed %d lines for %d ops" % (len(il), len(case.ops))]
-        return tree_oracle(case, il)
+        return died(case, il) or tree_oracle(case, il)
 
     def nontrivial(self, case, il):
         return tree_features(case, il)["split"]
